@@ -23,7 +23,7 @@ PROPERTY = 'C10'
 RULE = ('state in {OPENSENT, OPENCONFIRM, ESTABLISHED} x good* bad good*; bad = UPDATE/OPEN/NOTIFICATION/ROUTE-REFRESH/'
         'KEEPALIVE frame whose body is a mutated reference encoding, a mutated unit-test vector (as body or wrapped as an '
         'attribute / MP_REACH value) or random bytes; sessions in 4- or 2-octet-AS mode, negotiated hold time in '
-        '{180, 90, 3, 0}, as the first or as the 2nd/3rd session of the agent. Non-trivial = the bad body is >= 1 octet and at least one good '
+        '{180, 90, 3, 0}, [bgp] rib on / off, as the first or as the 2nd/3rd session of the agent. Non-trivial = the bad body is >= 1 octet and at least one good '
         'message follows; distinct by (state, bytes).')
 ASSUMPTIONS = ['good messages are marked UPDATEs / KEEPALIVEs from refcodec; the control run delivers the same sequence '
                'without the bad message',
@@ -48,7 +48,7 @@ def run_case(case, with_bad=True):
     caps = [rc.cap_mp(1, 1), rc.cap(2), rc.cap(128)]
     hold = case.get('hold', 180)      # the hold time the peer proposes (the agent is configured with 180): 0 = no timers
     sim, c = ss.new_established(upto='ESTABLISHED' if case.get('prior') else state, hold_time=180, idle_hold_time=5, as4=as4, caps=caps,
-                                hold=hold)
+                                hold=hold, rib=bool(case.get('rib')))
     r = sim.reactor
     out = []
     # earlier sessions of the same agent, each ended in a different way, before the session under test
@@ -258,12 +258,12 @@ def bad_message(draw):
 
 
 case_strategy = st.builds(
-    lambda state, pre, post, bad, as4, prior, hold: dict(state=state, pre=pre, post=post, type=bad['type'], body=bad['body'],
-                                                         kind=bad['kind'], as4=as4, prior=prior, hold=hold),
+    lambda state, pre, post, bad, as4, prior, hold, rib: dict(state=state, pre=pre, post=post, type=bad['type'], body=bad['body'],
+                                                              kind=bad['kind'], as4=as4, prior=prior, hold=hold, rib=rib),
     st.sampled_from(['ESTABLISHED', 'ESTABLISHED', 'ESTABLISHED', 'OPENCONFIRM', 'OPENSENT']),
     st.integers(0, 2), st.integers(1, 3), bad_message(), st.booleans(),
     st.one_of(st.just([]), st.just([]), st.lists(st.sampled_from(['close', 'marker', 'cease', 'silence']), min_size=1, max_size=2)),
-    st.sampled_from([180, 180, 0, 0, 3, 90]))
+    st.sampled_from([180, 180, 0, 0, 3, 90]), st.booleans())
 
 
 def shards(tier):
@@ -284,7 +284,7 @@ def fuzz_case(data):
     b0 = data[0] if data else 0
     b1 = data[1] if len(data) > 1 else 0
     return {'state': STATES[b0 % 4], 'as4': bool(b0 & 4), 'pre': (b0 >> 3) & 1, 'post': 1 + ((b0 >> 4) & 1),
-            'hold': 0 if b0 & 0x20 else 180,
+            'hold': 0 if b0 & 0x20 else 180, 'rib': bool(b0 & 0x40),
             'type': TYPES[b1 % len(TYPES)], 'body': data[2:4000].hex(), 'kind': 'atheris'}
 
 
@@ -301,7 +301,7 @@ def run_shard(spec, seed, col, tier):
     def body(case):
         res, cls = check_case(case)
         col.case(case, len(case['body']) >= 2 and case['post'] >= 1,
-                 labels=['state:' + case['state'], 'kind:' + case['kind'], 'as4:%s' % case.get('as4', True), 'prior-sessions:%d' % len(case.get('prior') or []), 'hold:%s' % case.get('hold', 180), 'type:%d' % case['type'], 'outcome:' + cls])
+                 labels=['state:' + case['state'], 'kind:' + case['kind'], 'as4:%s' % case.get('as4', True), 'prior-sessions:%d' % len(case.get('prior') or []), 'hold:%s' % case.get('hold', 180), 'rib:%s' % bool(case.get('rib')), 'type:%d' % case['type'], 'outcome:' + cls])
         for sig, detail in res:
             col.fail(sig, case, detail)
     hyp_run(col, case_strategy, body, seed, spec['examples'])
